@@ -400,10 +400,7 @@ where
                 policy,
                 typed_program,
             };
-            self.cmd_tx
-                .send(PolicyCmd::Run(run_request, None))
-                .await
-                .expect("unreachable");
+            self.send_to_self(PolicyCmd::Run(run_request, None));
         } else {
             // Schedule on a follower
             let client = self.client_builder.new_client(&policy);
@@ -481,6 +478,18 @@ where
             }
         }
         ControlFlow::Continue(self)
+    }
+
+    /// Queues a command for ourselves without ever waiting for room in our own command queue: the
+    /// state machine is the only consumer of that queue, so waiting here while the queue is full
+    /// (e.g. of requests that arrived during `schedule`) would block it forever.
+    fn send_to_self(&self, cmd: PolicyCmd) {
+        if let Err(mpsc::error::TrySendError::Full(cmd)) = self.cmd_tx.try_send(cmd) {
+            let cmd_tx = self.cmd_tx.clone();
+            tokio::spawn(async move {
+                let _ = cmd_tx.send(cmd).await;
+            });
+        }
     }
 
     fn init_channel(&mut self, policy: &Policy) {
@@ -1021,10 +1030,7 @@ where
             };
             let computation_id = policy.computation_id;
             self.state_kind = PolicyStateKind::Running { channel, policy };
-            self.cmd_tx
-                .send(PolicyCmd::Run(RunRequest { computation_id }, None))
-                .await
-                .expect("unreachable");
+            self.send_to_self(PolicyCmd::Run(RunRequest { computation_id }, None));
         } else {
             self.state_kind = PolicyStateKind::SendingConstsCompleted {
                 policy,
